@@ -494,6 +494,32 @@ example :
       right; decide
     · simp at hp
 
+/-- **python_node_sig_injective_in_task_path.** Two python-value arguments that agree in everything but the *module* of
+their task — same directory, same function name, same parameter, same position — are two different DAG nodes
+(no sha collision among the strings hashed). -/
+theorem C12_python_node_sig_injective_in_task_path (hlen : ∀ b, (sha b).length = 64) (S : Bytes → Prop)
+    (hS : InjOn sha S) (s₁ s₂ : ArgSite)
+    (c₁ : SigCovers sha S Generated.sigPythonNodeFields (envNodeInfo (nodeInfoOfArg s₁)))
+    (c₂ : SigCovers sha S Generated.sigPythonNodeFields (envNodeInfo (nodeInfoOfArg s₂)))
+    (hm : s₁.modulePath ≠ s₂.modulePath) :
+    sigPythonNode sha (some (nodeInfoOfArg s₁)) ≠ sigPythonNode sha (some (nodeInfoOfArg s₂)) := by
+  intro h
+  have := (C12_sig_iff_pythonnode_hash sha hlen S hS _ _ c₁ c₂).1 h
+  exact hm this.2.2.2
+
+/-- **python_node_sig_site.** Conversely the node's identity is a function of the site only: same module, task, parameter
+and position (up to what Python cannot tell apart in the position) ⇒ same node, whatever the directory spelling was. -/
+theorem C12_python_node_sig_site (s₁ s₂ : ArgSite) (hm : s₁.modulePath = s₂.modulePath)
+    (ht : s₁.taskName = s₂.taskName) (hp : s₁.param = s₂.param) (hq : PyEqHL s₁.treePath s₂.treePath) :
+    sigPythonNode sha (some (nodeInfoOfArg s₁)) = sigPythonNode sha (some (nodeInfoOfArg s₂)) := by
+  have h := hashValue_resp sha (.tuple s₁.treePath) (.tuple s₂.treePath) hq
+  simp only [sigPythonNode, sigOf, rawKey_python, nodeInfoOfArg, hm, ht, hp, h]
+
+/-- **sig (PythonNode without node info) is a constant** — why F41 merges all container-valued plain arguments. -/
+theorem C12_sig_pythonnode_noinfo_const :
+    sigPythonNode sha none = sha (utf8 (decInt Generated.hashNoneConst)) := by
+  simp [sigPythonNode, hashValue, HV.render]
+
 /-! ## hashed `PythonNode`s that are produced by one task and consumed by another -/
 
 /-- **pynode_dependency.** A `PythonNode` whose value is still unset when the consumer is collected is wrapped
